@@ -9,7 +9,20 @@ checks = {
  "C03": dict(engine="crash", text="Same search with a writability continuation on every recovered image (append at LastIndex+1, stable write, clean reopen, tail and head truncation, re-append, reopen) checked step by step against the model.", ref="4/C03, 3.2", note=crash_note),
  "C04": dict(engine="crash", text="Same search with truncation-heavy alphabets (every prefix/suffix shape on and off segment boundaries, re-append of different content after tail truncation); oracle: acknowledged DeleteRange stays applied, interrupted one is all-or-nothing, re-appended entries never displaced by the older generation.", ref="4/C04, 3.2", note=crash_note),
 }
+seq_note = "Trusted base: the reference models (contiguous map, stable map, metrics totals), simMeta and the simulated disk for the deep runs (bound to real fs + bbolt by the step-by-step conformance runs), the Go toolchain. Bounds are in the evidence."
+sched_note = "Trusted base: the cooperative scheduler and shims (sequentially consistent interleavings at sync/atomic/channel/go/I-O points), the AST rewriter that installs them, simMeta, the reference model and interval oracle. Data races are left to the separate free-running -race pass, which is sampling and is not what decides the property."
+checks.update({
+ "C05": dict(engine="seq", text="Every operation sequence up to the depth bound over a model-dependent alphabet (valid/invalid appends, all DeleteRange shapes, reopen) on three segment geometries, compared with the contiguous-map model after every step and after a final reopen; shallow sequences also on real fs + bbolt with step-by-step agreement.", ref="4/C05, 3.4", note=seq_note),
+ "C06": dict(engine="sched", text="All schedules up to the preemption bound of six 2-3 thread scenarios (sealing append + rotation, head/tail truncation, re-append of different content, base-index reset, two readers) of the real code under a cooperative scheduler; each read must equal the model's answer in a version current during the call, new entries only after their fsync, errors only for indexes truncated during the read.", ref="4/C06, 3.3", note=sched_note),
+ "C08": dict(engine="seq+crash", text="Stable-store operations interleaved with log operations: all sequences to the depth bound against a map model (incl. GetUint64 semantics) on simulated and real bbolt stacks, plus crash images after acknowledged Sets.", ref="4/C08", note=seq_note + " " + crash_note),
+ "C13": dict(engine="seq+crash", text="Directory listing compared with the committed metadata after every step of every sequence and after every recovery of every crash image; segment-ID allocation checked on every metadata commit; no create ever collides.", ref="4/C13", note=seq_note + " " + crash_note),
+ "C14": dict(engine="sched", text="All schedules up to the preemption bound of Close against StoreLogs, a pending rotation, DeleteRange (head/tail), reads, stable operations, a second Close and a writer+reader mix; no panic, no deadlock, answers correct or ErrClosed, everything ErrClosed afterwards, rotation goroutine gone, handles released, acknowledged entries present after reopen.", ref="4/C14, 3.3", note=sched_note),
+ "C20": dict(engine="seq", text="All sequences to the depth bound with AtomicCollectors built from the published definitions (undeclared names panic); counters compared after every step with the totals of the calls issued; plus the finite set of emitting call sites from go/ast.", ref="4/C20", note=seq_note),
+})
 technique = {
+ "seq": "bounded-exhaustive enumeration of operation sequences on the real code against a reference model",
+ "sched": "stateless model checking: preemption-bounded exhaustive schedule exploration under a cooperative scheduler",
+ "seq+crash": "bounded-exhaustive operation sequences against a reference model plus explicit-state model checking of crash images",
  "crash": "explicit-state model checking of crash images (all torn-write subsets at every I/O boundary, nested) on the real code over a simulated disk",
 }
 not_applicable = []
@@ -20,7 +33,9 @@ m = {
  "setup_cmd": "sh /verif/setup.sh",
  "hooks": {"guard": "verif", "enable": "checks build /repo's working tree with `go build -tags verif -overlay <generated>`: the overlay (verif/rewrite) redirects fs's os/ioutil/fileutil imports to a simulated OS and sync, sync/atomic, channel operations and go statements of wal, segment, verifier and fs to a cooperative scheduler; no source under /repo is modified", "baseline_off_cmd": BASELINE_CMD, "source_commits": [], "add_only": True},
  "engines": [
-  {"name": "crash", "path": "harness/core/crash.go", "serves_properties": ["C01", "C02", "C03", "C04"], "kind_free_text": "explicit-state search over durable disk images with exhaustive crash-image enumeration"},
+  {"name": "crash", "path": "harness/core/crash.go", "serves_properties": ["C01", "C02", "C03", "C04", "C08", "C13"], "kind_free_text": "explicit-state search over durable disk images with exhaustive crash-image enumeration"},
+  {"name": "seq", "path": "harness/core/seq.go", "serves_properties": ["C05", "C08", "C13", "C20"], "kind_free_text": "bounded-exhaustive operation sequences vs reference model, simulated and real stacks"},
+  {"name": "sched", "path": "harness/core/sched.go", "serves_properties": ["C06", "C14"], "kind_free_text": "cooperative scheduler + preemption-bounded DFS over rewritten sources"},
  ],
  "checks": [],
  "notes": "All checks are `bin/vcheck <id> --tier <tier>`; exit 2 means undecided (build/harness failure), never a violation. known_findings.json lists fixed and known defects.",
